@@ -130,6 +130,10 @@ Qed.
 Lemma set_of_paths_nodup : forall l, nodup_paths l = true -> set_of_paths l = l.
 Proof. intros l H. unfold set_of_paths. apply (set_update_nodup l [] H). reflexivity. Qed.
 
+(* .. and only such a list: set([p, p]) = {p} *)
+Example set_of_paths_dup : forall p, set_of_paths [p; p] = [p].
+Proof. intro p. unfold set_of_paths. cbn [fold_left]. unfold add_path. cbn [mem_path app]. rewrite path_eqb_refl. reflexivity. Qed.
+
 Lemma insert_by_ext : forall {A} (f g : A -> A -> bool), (forall a b, f a b = g a b) ->
   forall x l, insert_by f x l = insert_by g x l.
 Proof. intros A f g H x. induction l as [|y l IH]; cbn; [reflexivity|]. rewrite H, IH. reflexivity. Qed.
@@ -197,6 +201,20 @@ Lemma gen_bk_init_enter_eq : forall w,
 Proof. reflexivity. Qed.
 
 Lemma gen_bk_exit_eq : forall w, gen_bk_exit w = (end_build w, inl tt).
+Proof. reflexivity. Qed.
+
+(* FileBuilder.__init__ stores the two caches and the BuildDirs (the executor and the backups are the world
+   itself, `_operation` is threaded explicitly, `_is_finished_build` / `_lock` have no field) *)
+Lemma gen_fb_init_eq : forall o old new bd w,
+  gen_fb_init o old new bd w = (set_bd bd (set_new new (set_old old w)), inl tt).
+Proof. reflexivity. Qed.
+
+(* the three constructors build_versioned runs, in its order, produce [start_world] of Model/Build.v *)
+Lemma gen_fb_constructors_start_world : forall cf nm sv old w,
+  let new := empty_cache nm sv in
+  let bd := bd_init (c_dirs old) (cache_created_files old ++ [cf]) in
+  (modify (gen_ex_init cf old new bd) ;;; gen_bk_init ;;; gen_bk_enter ;;; gen_fb_init None old new bd) w
+  = (start_world w cf old nm sv, inl tt).
 Proof. reflexivity. Qed.
 
 (* ================= small helpers ================= *)
@@ -629,4 +647,262 @@ Proof.
       rewrite dg_bind_get, dg_bind_tt, H. apply gen_fb_create_dirs_eq.
   - rewrite !dg_bind_assoc. apply dg_bind_cong; [reflexivity|]. intros _ w1.
     rewrite !dg_bind_assoc. reflexivity.
+Qed.
+
+(* ================= _build ================= *)
+
+(* the root function does not change the name of the cache file held by the executor (Run.run does not) *)
+Definition keeps_cachefile (root : body) : Prop := forall w, w_cachefile (fst (root w)) = w_cachefile w.
+
+(* Model/Build.v: the part of m_build that is FileBuilder._build (the local [accept] after start_world), as a
+   computation in M; [m_build_core] below shows that m_build is made of it *)
+Definition build_pre (cf : path) (ccd : list path) : M (list path) :=
+  err <- set_created_dirs ccd ;;
+  w <- get ;;
+  (if isfile (w_fs w) cf then b <- back_up_and_remove cf ;; ret tt else ret tt) ;;;
+  ret err.
+
+Definition build_core (cf : path) (root : body) : M pyval :=
+  r <- attempt (make_dirs (dirname cf)) ;;
+  match r with
+  | inr e => roll_back [] ;;; raise e
+  | inl ccd =>
+      r2 <- attempt (call_root root) ;;
+      match r2 with
+      | inr e => roll_back ccd ;;; raise e
+      | inl v =>
+          r3 <- attempt (build_pre cf ccd) ;;
+          match r3 with
+          | inr e => roll_back ccd ;;; raise e
+          | inl err =>
+              r4 <- attempt write_cache ;;
+              match r4 with
+              | inr e => _ <- attempt (try_to_remove_file cf) ;; roll_back ccd ;;; raise e
+              | inl _ => commit err ;;; ret v
+              end
+          end
+      end
+  end.
+
+Lemma m_write_cache_eq : forall p w, w_cachefile w = p -> m_write_cache p w = write_cache w.
+Proof.
+  intros p w H. unfold m_write_cache, write_cache. rewrite !dg_bind_get. cbv zeta. rewrite H. reflexivity.
+Qed.
+
+Lemma try_to_remove_file_total : forall p w, exists w', try_to_remove_file p w = (w', inl tt).
+Proof.
+  intros p w. unfold try_to_remove_file. rewrite dg_bind_get. destruct (isfile (w_fs w) p); [|eexists; reflexivity].
+  unfold catch, effect. cbv zeta. destruct (existsb (Nat.eqb (w_effects w)) (w_faults w)); [eexists; reflexivity|].
+  destruct (remove (w_fs (set_effects (S (w_effects w)) w)) p); eexists; reflexivity.
+Qed.
+
+Lemma call_root_cachefile : forall root w w' r,
+  keeps_cachefile root -> call_root root w = (w', r) -> w_cachefile w' = w_cachefile w.
+Proof.
+  intros root w w' r H E. unfold call_root in E.
+  specialize (H (set_log (LInvoke "<root>" None PNone PNone :: w_log w) w)).
+  destruct (root (set_log (LInvoke "<root>" None PNone PNone :: w_log w) w)) as [w2 [res subs]].
+  inversion E; subst. exact H.
+Qed.
+
+Lemma roll_back_raise_eq : forall ccd (e : exn) w,
+  (gen_fb_roll_back ccd ;;; @raise pyval e) w = (roll_back ccd ;;; raise e) w.
+Proof. intros. apply dg_bind_cong; [apply gen_fb_roll_back_eq|reflexivity]. Qed.
+
+(* `try` as the translator writes it, compared piecewise; the continuations may use the run of the body *)
+Lemma dg_try_cong : forall {A B} (m1 m2 : M A) (k1 k2 : A -> M B) (h1 h2 : exn -> M B) w,
+  m1 w = m2 w ->
+  (forall w' a, m2 w = (w', inl a) -> k1 a w' = k2 a w') ->
+  (forall w' e, m2 w = (w', inr e) -> h1 e w' = h2 e w') ->
+  (r <- attempt m1 ;; match r with inl a => k1 a | inr e => h1 e end) w
+  = (r <- attempt m2 ;; match r with inl a => k2 a | inr e => h2 e end) w.
+Proof.
+  intros A B m1 m2 k1 k2 h1 h2 w Hm Hk Hh. unfold bind, attempt. rewrite Hm.
+  destruct (m2 w) as [w' [a|e]] eqn:E; [apply Hk|apply Hh]; reflexivity.
+Qed.
+
+Lemma gen_fb_priv_build_eq : forall cf root w0,
+  keeps_cachefile root -> w_cachefile w0 = cf ->
+  gen_fb_priv_build cf root w0 = build_core cf root w0.
+Proof.
+  intros cf root w0 Hroot Hcf. unfold gen_fb_priv_build, build_core. cbv zeta.
+  apply dg_try_cong; [apply gen_fb_make_dirs_eq| |intros; apply roll_back_raise_eq].
+  intros w1 ccd E1. apply make_dirs_new in E1. destruct E1 as (_ & _ & C1).
+  apply dg_try_cong; [reflexivity| |intros; apply roll_back_raise_eq].
+  intros w2 v E2. apply (call_root_cachefile _ _ _ _ Hroot) in E2.
+  (* set_created_dirs and the backup of the old cache file: two `try` scopes with the same handler *)
+  unfold build_pre.
+  transitivity ((r3 <- attempt (gen_fb_set_created_dirs ccd) ;;
+                 match r3 with
+                 | inl err =>
+                     r4 <- attempt (w <- get ;; (if isfile (w_fs w) cf then back_up_and_remove cf else ret false)) ;;
+                     match r4 with
+                     | inl _ =>
+                         r5 <- attempt write_cache ;;
+                         match r5 with
+                         | inr e => _ <- attempt (try_to_remove_file cf) ;; roll_back ccd ;;; raise e
+                         | inl _ => commit err ;;; ret v
+                         end
+                     | inr e => roll_back ccd ;;; raise e
+                     end
+                 | inr e => roll_back ccd ;;; raise e
+                 end) w2).
+  - apply dg_try_cong; [reflexivity| |intros; apply roll_back_raise_eq].
+    intros w3 err E3. rewrite gen_fb_set_created_dirs_eq in E3.
+    apply set_created_dirs_ok in E3. destruct E3 as [_ C3].
+    apply dg_try_cong; [| |intros; apply roll_back_raise_eq].
+    + rewrite !dg_bind_get. destruct (isfile (w_fs w3) cf); [|reflexivity].
+      apply gen_bk_back_up_and_remove_eq.
+    + intros w4 u E4.
+      assert (C4 : w_cachefile w4 = w_cachefile w3).
+      { rewrite dg_bind_get in E4. destruct (isfile (w_fs w3) cf); [|inversion E4; reflexivity].
+        apply back_up_and_remove_new in E4. destruct E4 as (_ & _ & C5). exact C5. }
+      apply dg_try_cong; [apply m_write_cache_eq; congruence| |].
+      * intros w5 [] _. apply dg_bind_cong; [apply gen_fb_commit_eq|reflexivity].
+      * intros w5 e _. cbn [is_exception]. unfold bind at 1 3. unfold attempt.
+        rewrite gen_fb_try_to_remove_file_eq. destruct (try_to_remove_file_total cf w5) as [w6 E6]. rewrite E6.
+        apply roll_back_raise_eq.
+  - unfold bind, attempt, get, ret. rewrite gen_fb_set_created_dirs_eq.
+    destruct (set_created_dirs ccd w2) as [w3 [err|e]]; [|reflexivity].
+    destruct (isfile (w_fs w3) cf); [|reflexivity].
+    destruct (back_up_and_remove cf w3) as [w4 [b|e]]; reflexivity.
+Qed.
+
+(* ================= build_versioned, build ================= *)
+
+Definition done (x : world * (pyval + exn)) : world * build_result := (fst x, Done (snd x)).
+
+Ltac lockstep :=
+  repeat (cbn [fst snd];
+          match goal with
+          | |- context [match ?x with inl _ => _ | inr _ => _ end] => is_var x; destruct x
+          | |- context [let (_, _) := ?x in _] => is_var x; destruct x
+          | |- context [let (_, _) := ?x in _] => destruct x
+          | |- context [match ?x with inl _ => _ | inr _ => _ end] => destruct x
+          | |- context [if ?x then _ else _] => destruct x
+          end).
+
+(* m_build is argument checking, reading the previous cache, and [build_core] in the world [start_world] *)
+Lemma m_build_core : forall cf nm vers root w,
+  m_build cf nm vers root w
+  = match sanitize vers with
+    | None => (w, Refused XType)
+    | Some svers =>
+        let accept old := done (build_core cf root (start_world w cf old nm svers)) in
+        match lookup (w_fs w) cf with
+        | Some (NFile f) =>
+            match cache_of_json (f_json f) with
+            | ReadOk old => if String.eqb (c_name old) nm then accept old else (w, Refused (XRuntime RBuildName))
+            | ReadRuntime => (w, Refused (XRuntime RBadCache))
+            | ReadMalformed => (w, Refused (XCrash "malformed cache"))
+            end
+        | Some NDir => (w, Refused (XOS XIsADirectory))
+        | None => accept (empty_cache nm svers)
+        end
+    end.
+Proof.
+  intros cf nm vers root w. unfold m_build. destruct (sanitize vers) as [sv|]; [|reflexivity]. cbv zeta.
+  destruct (lookup (w_fs w) cf) as [[f|]|]; [destruct (cache_of_json (f_json f)) as [old| |]; try reflexivity;
+                                             destruct (String.eqb (c_name old) nm); [|reflexivity]| reflexivity |].
+  - generalize (start_world w cf old nm sv). intro w0.
+    unfold done, build_core, build_pre, call_root, bind, attempt, ret, raise, get.
+    lockstep; reflexivity.
+  - generalize (start_world w cf (empty_cache nm sv) nm sv). intro w0.
+    unfold done, build_core, build_pre, call_root, bind, attempt, ret, raise, get. lockstep; reflexivity.
+Qed.
+
+(* what the caller of build_versioned / clean observes for a result of the model: a refusal is the exception
+   (raised before `with FileBackups()` is entered); otherwise the temporary directory is deleted on the way out *)
+Definition res_of_build (x : world * build_result) : world * (pyval + exn) :=
+  match x with
+  | (w', Refused e) => (w', inr e)
+  | (w', Done r) => (end_build w', r)
+  end.
+
+(* SimpleOperationExecutor(..), FileBackups() entered, FileBuilder(None, ..): the world a build starts in;
+   then _build, `finally: builder._is_finished_build = True` (no field), and FileBackups.__exit__ *)
+Lemma gen_fb_start_eq : forall cf nm sv root old w,
+  keeps_cachefile root ->
+  ((modify (gen_ex_init cf old (empty_cache nm sv) (bd_init (c_dirs old) (cache_created_files old ++ [cf])))) ;;;
+   gen_bk_init ;;; gen_bk_enter ;;;
+   finally
+     (gen_fb_init None old (empty_cache nm sv) (bd_init (c_dirs old) (cache_created_files old ++ [cf])) ;;;
+      finally (gen_fb_priv_build cf root) (ret tt))
+     gen_bk_exit) w
+  = res_of_build (done (build_core cf root (start_world w cf old nm sv))).
+Proof.
+  intros cf nm sv root old w Hroot.
+  cbv beta iota zeta delta [bind modify gen_bk_init gen_bk_enter m_mkdtemp ret finally gen_fb_init gen_bk_exit m_rmtree_tmp].
+  match goal with |- context [gen_fb_priv_build cf root ?W] => change W with (start_world w cf old nm sv) end.
+  rewrite gen_fb_priv_build_eq by (try assumption; reflexivity).
+  unfold res_of_build, done. destruct (build_core cf root (start_world w cf old nm sv)) as [w' r]. reflexivity.
+Qed.
+
+Theorem gen_fb_build_versioned_eq : forall cf nm vers root w,
+  keeps_cachefile root ->
+  gen_fb_build_versioned cf nm vers root w = res_of_build (m_build cf nm vers root w).
+Proof.
+  intros cf nm vers root w Hroot. rewrite m_build_core. unfold gen_fb_build_versioned. cbv zeta.
+  unfold bind at 1. unfold sanitize_m. destruct (sanitize vers) as [sv|]; [|reflexivity].
+  unfold ret at 1. rewrite dg_bind_get. unfold isfile. destruct (lookup (w_fs w) cf) as [[f|]|] eqn:L.
+  - unfold bind at 1. unfold m_read_cache. rewrite L.
+    destruct (cache_of_json (f_json f)) as [old| |]; try reflexivity.
+    destruct (String.eqb (c_name old) nm); cbn [negb]; [|reflexivity]. timeout 60 (apply gen_fb_start_eq). exact Hroot.
+  - rewrite dg_bind_get. unfold isdir. rewrite L. reflexivity.
+  - rewrite dg_bind_get. unfold isdir. rewrite L. timeout 60 (apply gen_fb_start_eq). exact Hroot.
+Qed.
+
+(* Run.run_build applies [end_build] to whatever m_build returns *)
+Corollary gen_fb_build_versioned_run_build : forall cf nm vers pr w w' r,
+  keeps_cachefile (fun w0 => run pr None [] w0) ->
+  run_build cf nm vers pr w = (w', Done r) ->
+  gen_fb_build_versioned cf nm vers (fun w0 => run pr None [] w0) w = (w', r).
+Proof.
+  intros cf nm vers pr w w' r Hroot H. rewrite gen_fb_build_versioned_eq by exact Hroot.
+  unfold run_build in H. destruct (m_build cf nm vers (fun w0 => run pr None [] w0) w) as [w1 [e|r1]].
+  - inversion H.
+  - inversion H; subst. reflexivity.
+Qed.
+
+(* build(cache_filename, build_name, func, *args, **kwargs) = build_versioned(.., {}, ..) *)
+Theorem gen_fb_build_eq : forall cf nm root w,
+  keeps_cachefile root ->
+  gen_fb_build cf nm root w = res_of_build (m_build cf nm (PDict []) root w).
+Proof. intros. unfold gen_fb_build. apply gen_fb_build_versioned_eq. assumption. Qed.
+
+(* ================= clean ================= *)
+
+Definition res_of_clean (x : world * build_result) : world * (unit + exn) :=
+  match x with
+  | (w', Refused e) => (w', inr e)
+  | (w', Done (inl _)) => (w', inl tt)
+  | (w', Done (inr e)) => (w', inr e)
+  end.
+
+Lemma gen_fb_clean_loop1_eq : forall l w, gen_fb_clean_loop1 l w = mapM_ try_to_remove_file l w.
+Proof.
+  induction l as [|f l IH]; intro w; cbn [gen_fb_clean_loop1 mapM_]; [reflexivity|].
+  apply dg_bind_cong; [apply gen_fb_try_to_remove_file_eq|]. intros _ w1. apply IH.
+Qed.
+
+Theorem gen_fb_clean_eq : forall cf nm w, gen_fb_clean cf nm w = res_of_clean (m_clean cf nm w).
+Proof.
+  intros cf nm w. unfold gen_fb_clean, m_clean. cbv zeta.
+  replace (match nm with None => false | Some _ => false end) with false by (destruct nm; reflexivity).
+  rewrite dg_bind_get. unfold lexists. destruct (lookup (w_fs w) cf) as [[f|]|] eqn:L; cbn [negb]; try reflexivity.
+  - unfold bind at 1. unfold m_read_cache. rewrite L.
+    destruct (cache_of_json (f_json f)) as [c| |]; try reflexivity.
+    destruct (match nm with Some n => negb (String.eqb (c_name c) n) | None => false end) eqn:E.
+    + replace (match nm with None => false | Some c3_ => negb (String.eqb (c_name c) c3_) end) with true
+        by (destruct nm; [symmetry; exact E|discriminate]). reflexivity.
+    + replace (match nm with None => false | Some c3_ => negb (String.eqb (c_name c) c3_) end) with false
+        by (destruct nm; [symmetry; exact E|reflexivity]).
+      transitivity ((mapM_ try_to_remove_file (cache_created_files c) ;;; try_to_remove_file cf ;;;
+                     remove_empty_dirs (c_dirs c)) w).
+      * apply dg_bind_cong; [apply gen_fb_clean_loop1_eq|]. intros _ w1.
+        apply dg_bind_cong; [apply gen_fb_try_to_remove_file_eq|]. intros _ w2.
+        rewrite dg_bind_tt. apply gen_fb_remove_empty_dirs_eq.
+      * destruct ((mapM_ try_to_remove_file (cache_created_files c) ;;; try_to_remove_file cf ;;;
+                   remove_empty_dirs (c_dirs c)) w) as [w' [[]|e]]; reflexivity.
+  - unfold bind at 1. unfold m_read_cache. rewrite L. reflexivity.
 Qed.
